@@ -251,7 +251,7 @@ def r8(ctx):
         if rhs is not None and fn.val(rhs) == cont and fn.nodes.get(fn.strip(rhs), {}).get('rk') == 'enumerator':
             found = True
             atoms = set((a[0], a[1]) for a in fn.atoms(nid))
-            ok = ('(len > #1)', True) in atoms or ('(len >= #2)', True) in atoms
+            ok = ('(len <= #1)', False) in atoms or ('(len < #2)', False) in atoms
             ctx.ob('C01.R8', fn, nid, ok, 'RESULT_CONTINUE condition', 'RESULT_CONTINUE produced under %s' %
                    sorted(a for a in atoms if 'len' in a[0]))
     for r in fn.all('ReturnStmt'):
@@ -259,7 +259,7 @@ def r8(ctx):
         if rv is not None and fn.val(rv) == cont:
             found = True
             atoms = set((a[0], a[1]) for a in fn.atoms(r))
-            ok = ('(len > #1)', True) in atoms
+            ok = ('(len <= #1)', False) in atoms
             ctx.ob('C01.R8', fn, r, ok, 'RESULT_CONTINUE condition', 'returned under %s' % sorted(a for a in atoms if 'len' in a[0]))
     if not found:
         ctx.ob('C01.R8', fn, fn.body, False, 'RESULT_CONTINUE condition', 'RESULT_CONTINUE is never produced: buffered symbols '
